@@ -900,7 +900,10 @@ def evaluate_cases(ck, cases, formats, header, newfile):
     """run the real code on every case, the model on the observed matrices, then judge"""
     cache = {}
     prepared = []
-    for c in cases:
+    global _CASES
+    _CASES = cases
+    for ci_, c in enumerate(cases):
+        c["_idx"] = ci_
         mode = mode_of(c["entry"])
         path = None
         if mode == "file":
@@ -1248,7 +1251,19 @@ def cross_stream(ck, cases):
     return dis
 
 
+_CASES = []
+
+
+def case_history(n):
+    """the automatic loads made before case `n` in this run (state kept between loads is part of the input)"""
+    return [[c["entry"], c["text"], c.get("ext"), c["bytes"].hex() if c.get("bytes") is not None else None] for c in _CASES[:n]]
+
+
 def replay_dict(c, path, matrix, got, model):
+    return common.LazyReplay(_replay_dict(c, path, matrix, got, model), history=lambda n=c.get("_idx", 0): case_history(n))
+
+
+def _replay_dict(c, path, matrix, got, model):
     return {"kind": c["stream"], "entry": c["entry"], "written_format": c.get("written"), "hint": c.get("hint"), "ext": c.get("ext"),
             "text": c["text"], "bytes_hex": c["bytes"].hex() if c.get("bytes") is not None else None, "structure": c.get("stru"), "junkkind": c.get("junkkind"), "odd_title": c.get("odd_title"), "title": c.get("title"), "special_title": c.get("special_title"),
             "observed_per_format": {f: (o[0],) + tuple(o[1:3] if o[0] == "err" else ()) for f, o in matrix.items()},
@@ -1529,6 +1544,24 @@ def replay(path):
             print("auto:", got[:2], (got[2][:300] if got[0] == "err" else ""))
             col.fails = fails
             rel = col.relevant(want)
+            if not rel and r.get("history"):
+                # not on its own: repeat the automatic loads made before it in the run that found it
+                for hi, (h_entry, h_text, h_ext, h_hex) in enumerate(r["history"]):
+                    hp = None
+                    if mode_of(h_entry) == "file":
+                        hp = os.path.join(tmp, "h%d%s" % (hi, h_ext or ""))
+                        with open(hp, "wb") as f:
+                            f.write(bytes.fromhex(h_hex) if h_hex else h_text.encode("utf-8"))
+                    try:
+                        run_auto(h_entry, h_text, hp)
+                    except Exception:  # noqa: BLE001
+                        pass
+                matrix = matrix_for(formats, mode, r["text"], p)
+                got = run_auto(r["entry"], r["text"], p)
+                ref, _ = reference_auto(order, lambda f: matrix[f])
+                col.fails = judge(c, matrix, order, got, None, HEADER_REF, ref)
+                rel = col.relevant(want)
+                print("after the %d automatic loads made before it:" % len(r["history"]), got[:2])
             for k, w in rel:
                 print("FAILS", k, w)
             return 1 if rel else 0
